@@ -87,12 +87,12 @@ MUTANTS: dict = {
         "belowRange = xEvaluateRegion > self._rangeMin")),
     "C18.extension_forgets_old_table": ("C18", lambda: patchSource(
         "WallGo.interpolatableFunction", "InterpolatableFunction", "extendInterpolationTable",
-        "(appendPointsMin, self._interpolationPoints, appendPointsMax)",
-        "(appendPointsMin, self._interpolationPoints[1:], appendPointsMax)")),
+        "xBlocks = [np.asarray(self._interpolationPoints)]",
+        "xBlocks = [np.asarray(self._interpolationPoints)[1:]]")),
     "C18.extension_values_misaligned": ("C18", lambda: patchSource(
         "WallGo.interpolatableFunction", "InterpolatableFunction", "extendInterpolationTable",
-        "(appendValuesMin, np.asarray(self._interpolationValues), appendValuesMax)",
-        "(appendValuesMin[::-1], np.asarray(self._interpolationValues), appendValuesMax)")),
+        "fxBlocks.insert(0, np.asarray(self._functionImplementation(appendPointsMin)))",
+        "fxBlocks.insert(0, np.asarray(self._functionImplementation(appendPointsMin))[::-1])")),
     "C18.read_keeps_2d_for_scalar": ("C18", lambda: patchSource(
         "WallGo.interpolatableFunction", "InterpolatableFunction", "readInterpolationTable",
         "            if columns == 2:", "            if columns == 1:")),
